@@ -1,0 +1,38 @@
+//go:build verif
+
+package chain
+
+// Trusted contracts of the block counter (read from both implementations:
+// BlockHeightWaiter(h) emits exactly h once the chain reached h).
+
+//@ ghost now int
+//@ ghost refBlock int
+//@ spec func isWaiter(ch ref) bool
+//@ spec func waiterHeight(ch ref) int
+
+//@ recv uint64: modifies ghost.now; ghost.now >= old(ghost.now) && (@isWaiter(ch) ==> elem == @waiterHeight(ch) && ghost.now >= elem)
+
+//@ assume func BlockCounter.BlockHeightWaiter
+//@   ensures result1 == nil ==> result0 != nil && @isWaiter(result0) && @waiterHeight(result0) == blockNumber
+
+//@ assume func BlockCounter.WaitForBlockHeight
+//@   modifies ghost.now
+//@   ensures ghost.now >= old(ghost.now)
+//@   ensures result == nil ==> ghost.now >= blockNumber
+
+//@ assume func BlockCounter.CurrentBlock
+//@   modifies ghost.now, ghost.refBlock
+//@   ensures ghost.now >= old(ghost.now)
+//@   ensures result1 == nil ==> ghost.now >= result0 && ghost.refBlock == result0 && result0 <= 4611686018427387904
+
+// Addresses.Set: the set of elements of the list.
+//@ func Addresses.Set
+//@   property C22 C09 C10
+//@   ensures forall x Address :: (x in result) <==> (exists i int :: 0 <= i && i < len(a) && a[i] == x)
+//@   ensures forall i int :: 0 <= i && i < len(a) ==> a[i] in result
+//@   ensures len(a) >= 1 ==> a[0] in result
+//@   loop 1 invariant forall x Address :: (x in set) <==> (exists i int :: 0 <= i && i < rangeidx1 && a[i] == x)
+
+//@ spec func addrOfKey(s ref, key []byte) Address
+//@ assume func Signing.PublicKeyBytesToAddress
+//@   ensures result == @addrOfKey(recv, publicKey)
